@@ -7,7 +7,8 @@ VARIABLES i, verdict
 Pair(p) == <<p[1], p[2]>>
 Nodes(ns) == [k \in 1..Len(ns) |-> <<Pair(ns[k][1]), Pair(ns[k][2]), Pair(ns[k][3])>>]
 Judge(e) ==
-  IF ~e.integral THEN "bezier.same_curve_dyadic_pieces"        \* some coordinate is not on the dyadic lattice of depth D
+  IF e.deeper THEN "skip"                                      \* dyadic, but finer than D levels of halving can produce: cannot tell
+  ELSE IF ~e.integral THEN "bezier.same_curve_dyadic_pieces"   \* some coordinate is not a dyadic number at all
   ELSE JudgeSubdivision(Nodes(e.inn), Nodes(e.out), e.orig, e.tn, e.td)
 TInit == i = 0 /\ verdict = "init"
 TNext == i < Len(Trace) /\ i' = i + 1 /\ verdict' = Judge(Trace[i + 1])
